@@ -9,3 +9,5 @@ open GoSQLXModel
 #print axioms Props.C11.flatten_without_catch_all_counterexample
 #print axioms Props.C11.never_fires_transparent
 #print axioms Props.C11.gen_entry_polls_first
+#print axioms Props.C11.cancellation_seen_at_first_poll
+#print axioms Props.C11.result_means_context_unseen
